@@ -15,7 +15,7 @@ RULE = ('Stream "trees": calendar expression trees of depth <= 3 over weekly (li
         'operands, operators + - * / |; queried at validity bounds +- {0, 1us, 1 day}, dated keys and random times.  Oracle '
         'per node, relative to the operands\' own values on that date: None operands skipped, + sum, * product, / quotient, '
         '- negative => None/0, | first positive operand else None/0, numbers constant; leaves: configured value inside '
-        'validity, None/0 outside (either on the bound\'s own calendar day); Resource.get_available_units == value or 0, '
+        'validity [start, end] (full time stamps), None/0 outside; Resource.get_available_units == value or 0, '
         'never None.  Stream "search": brute-force reference of get_nearest_availability_date (both directions, horizons '
         '0/1/2/5/40, start dates with time of day): earliest whole-day offset with positive capacity, RuntimeError exactly '
         'when none within the horizon.  Stream "invalid": definitions that must raise RuntimeError.  Small scope: all trees '
@@ -174,8 +174,7 @@ def leaf_expect(t, d):
     inside = (s is None or d >= s) and (e is None or d <= e)
     if inside:
         return ('exact', v)
-    if (s is not None and d < s and day(d) == day(s)) or (e is not None and d > e and day(d) == day(e)):
-        return ('either', v)
+    # validity is [start, end] on full time stamps (start / end are datetimes): one microsecond outside is outside
     return ('none',)
 
 
